@@ -237,14 +237,19 @@ def r04_5_final_sweep(ctx):
     ctx.analysed(f.fq, vv.fq, vm.fq)
     TEALOP = Rec("name", "TealOp")
 
+    origin = {"n": 0}
+
     def comp(v, modes):
         o = Sym(f"op(v{v},modes{modes})", attrs={"min_version": v, "mode": modes, "name": "x"})
-        return Sym("teal-op", attrs={"$isa": {"TealOp", "TealComponent"}}, methods={"getOp": lambda: o})
+        # ops come from user expressions and from the compiler itself (spill code, branches: no expression) alternately
+        origin["n"] += 1
+        expr = Sym("user-expression", attrs={"$isa": {"Expr"}}) if origin["n"] % 2 else None
+        return Sym("teal-op", attrs={"$isa": {"TealOp", "TealComponent"}, "expr": expr, "op": o, "args": [], "_sframes_container": None}, methods={"getOp": lambda: o})
 
     label = Sym("teal-label", attrs={"$isa": {"TealLabel", "TealComponent"}})
     oracle = lambda e, me: (_ for _ in ()).throw(Unknown())
     # verifyOpsForVersion: refuse iff some op has min_version > version, wherever it sits
-    for pos in (0, 1, 2):
+    for pos in (0, 1, 2, 0, 1, 2):
         for opv, target, want_raise in ((5, 4, True), (5, 5, False), (2, 10, False), (11, 10, True), (3, 2, True)):
             lst = [comp(2, 3), label, comp(2, 3)]
             lst[pos if pos != 1 else 2] = comp(opv, 3)
